@@ -240,6 +240,11 @@ def body(data) -> Outcome:
         del log[:]
         try:
             p = build_pipeline(prog, log, lazy=True, cache_type=cache_type)
+            if variant == 2 and cache_type == "lru":
+                # the lazy pipeline is derived from an eager one: Pipeline.copy(lazy=True) of a pipeline with explicit cache options
+                p = build_pipeline(prog, log, lazy=False, cache_type="lru", cache_kwargs={"max_size": 64}).copy(lazy=True)
+                out.labels.append("history:lazy-copy-of-an-eager-cached-pipeline")
+                variant = 0
             if variant == 0:
                 out.labels.append("history:same-request-twice" + ("-implied-cache" if implied else ""))
                 first, second = p(t, **kw), p(t, **kw)
